@@ -213,6 +213,15 @@ def rule_c(ctx, ix, f):
     ok = len(app) == 1 and len(drop) == 1 and app[0].lineno < drop[0].lineno and unparse(app[0].value) == 'invalid_value'
     ctx.ob(R, f.construct + ' apply', 'invalid samples are reset before the scalar dimensions are dropped', ok,
            detail='array[invalid_all] = invalid_value is missing or comes after the scalar dimensions were dropped (shapes differ)', where=f.where)
+    dl = [n for n in walk_no_nested(f.node) if isinstance(n, ast.For) and unparse(n.iter) == 'bounds' and
+          any(call_name(c) == 'append' and 'slices' in unparse(c.func) for c in calls_in(n))]
+    if len(dl) == 1:
+        t = [n for n in dl[0].body if isinstance(n, ast.If)]
+        ok2 = len(t) == 1 and unparse(t[0].test).replace(' ', '') == 'isinstance(bound,tuple)' and \
+            'slice(None)' in unparse(t[0].body[0]) and unparse(t[0].orelse[0]).replace(' ', '') == 'slices.append(0)'
+        ctx.idiom(R, f.construct + ' drop', 'ranged bounds keep their dimension, scalar bounds are dropped', accepted=ok2,
+                  absent=len(t) != 1, detail_absent='the dimension-dropping loop no longer distinguishes ranged and scalar bounds',
+                  shape=unparse(dl[0])[:200], where=where(f, dl[0]))
     vals = {}
     for st in ast.walk(f.node):
         if isinstance(st, ast.Assign) and unparse(st.targets[0]) == 'invalid_value':
